@@ -43,6 +43,15 @@ class Reader(flodym.DataReader):
         return flodym.Parameter(dims=dims, name=parameter_name, values=param_values(parameter_name, list(dims.letters)))
 
 
+def scratch(prefix):
+    """a scratch directory with the SAME path for every vector this process replays (removed by the caller after each vector):
+    files of different content are read from one path again and again, as in a scenario loop that regenerates its input files"""
+    path = os.path.join(os.environ.get("VERIF_SCRATCH") or tempfile.gettempdir(), f"{prefix}{os.getpid()}")
+    shutil.rmtree(path, ignore_errors=True)
+    os.makedirs(path)
+    return path
+
+
 def render_name(n):
     kind = n[0]
     if kind == "given":
@@ -232,7 +241,7 @@ def padded(vec):
 
 def run_build(vec):
     problems = []
-    tmp = tempfile.mkdtemp(prefix="flodym-verif-sys-")
+    tmp = scratch("flodym-verif-sys-")
     try:
         problems += _run_build(vec["def"], vec["res"], tmp, "")
         # second concretisation of the same definition: names carrying a leading / trailing blank
@@ -288,7 +297,7 @@ def run_dimfile(vec):
     else:
         grid = [[c] for c in cells]
     df = pd.DataFrame(grid)
-    tmp = tempfile.mkdtemp(prefix="flodym-verif-dim-")
+    tmp = scratch("flodym-verif-dim-")
     tag = f"[{f['ftype']}/{f['orient']}/{'headed' if f['headed'] else 'bare'}/sheet:{f['sheet']}] {{C18}} "
     try:
         definition = flodym.DimensionDefinition(name=f["name"], letter="x", dtype=int if f["dtype"] == "int" else str)
